@@ -44,6 +44,31 @@ func main() {
 				os.Exit(1)
 			}
 			fmt.Println("no violation")
+		case "C03":
+			var rp confReplay
+			a.LoadReplay(&rp)
+			w := u.ByName[rp.Wrapper]
+			var v *schema.V
+			for _, c := range schema.Alphabet(w, rp.Reduced) {
+				if c.Dev == rp.Dev {
+					v = c
+				}
+			}
+			if v == nil {
+				report.Internal("no case %s / %s", rp.Wrapper, rp.Dev)
+			}
+			var kind, detail string
+			if rp.Dir == "lib2ref" {
+				kind, detail = libToRef(v, rp.Format)
+			} else {
+				kind, detail = refToLib(v, rp.Format, rp.Doc)
+			}
+			fmt.Printf("type %s value %s format %s direction %s variant %s\n", rp.Wrapper, v, rp.Format, rp.Dir, rp.Variant)
+			if kind != "" {
+				fmt.Println("FAIL:", kind, detail)
+				os.Exit(1)
+			}
+			fmt.Println("no violation")
 		default:
 			report.Internal("unknown replay part %q", hdr.Part)
 		}
@@ -53,6 +78,8 @@ func main() {
 	switch a.Part {
 	case "C01":
 		partC01(a, rep, univName, u)
+	case "C03":
+		partC03(a, rep, univName, u)
 	default:
 		report.Internal("unknown part %q", a.Part)
 	}
